@@ -23,6 +23,7 @@ type c18op struct {
 	key  []string
 	data *gen.DNode
 	sel  *node.Selection // DR: a selection obtained before the preceding operation ran (a handle the caller kept)
+	iter bool            // … obtained by iterating the list (First/Next): both selections hang on one list node
 }
 
 func (o c18op) tokens(kids []*gen.SNode) string {
@@ -263,6 +264,35 @@ func C18(c *core.Ctx) {
 				}
 				}
 			chosen:
+				if op.kind == "DR" && op.sel == nil && len(cur[op.i].Rows) >= 2 && r.Chance(25) {
+					// walk the list once (First/Next), keep the entry selections, delete two of them one after the other
+					want1 := strings.Join(op.key, "\x00")
+					var s1, s2 *node.Selection
+					var key2 []string
+					if ls, err := selAt(loc.kids[op.i].Name); err == nil && ls != nil {
+						safeDo(func() error {
+							li, err := ls.First()
+							for err == nil && li.Selection != nil {
+								var ks []string
+								for _, kv := range li.Key {
+									ks = append(ks, kv.String())
+								}
+								if strings.Join(ks, "\x00") == want1 {
+									s1 = li.Selection
+								} else if s2 == nil || r.Chance(40) {
+									s2, key2 = li.Selection, ks
+								}
+								li, err = li.Next()
+							}
+							return err
+						})
+					}
+					if s1 != nil && s2 != nil {
+						op.sel, op.iter = s1, true
+						pending = &c18op{kind: "DR", i: op.i, key: key2, sel: s2, iter: true}
+						c.Count("op", "DR-of-iterated-selections")
+					}
+				}
 				if op.kind == "DR" && op.sel == nil && len(cur[op.i].Rows) >= 2 && r.Chance(35) {
 					// the caller holds selections of two entries and deletes one after the other
 					for _, row := range cur[op.i].Rows {
@@ -349,7 +379,7 @@ func C18(c *core.Ctx) {
 				}
 				compoundEver = compoundEver || gen.CompoundInMap > 0
 				compoundMap := compoundEver
-				keptEver = keptEver || (op.sel != nil && tgtKind != "refstore")
+				keptEver = keptEver || (op.sel != nil && !op.iter && tgtKind != "refstore")
 				locAfter := locateBody(dc.kids, after, loc)
 				status := errClass(opErr)
 				canon := "<entry point vanished>"
